@@ -125,7 +125,10 @@ TRUSTED = [
     'the twin application without the CORS middleware as the meaning of "untouched" in the full-stack oracle',
 ]
 ASSUMPTIONS = [
-    'the configuration of a policy is what was handed to its constructor: objects the caller keeps and mutates afterwards (the list / set passed as allow_origins, ...) do not re-configure it; '
+    'the configuration of a policy is what was handed to its constructor - objects the caller keeps and mutates afterwards (the list / set passed as allow_origins, ...) do not re-configure it - until the application '
+    'assigns one of the public attributes allow_origins / allow_credentials / expose_headers of the live object (in the normalised form the constructor itself stores: "*", a frozenset of origins, None / the joined expose string): '
+    'from then on the assigned value is the configuration, and every request is judged by the configuration current at that request; '
+    'the Origin of a request is its Origin FIELD VALUE (RFC 9110, 5.3: all field lines combined in order, comma-separated - what a WSGI server hands over in HTTP_ORIGIN): a field of several lines is not one origin, so it is granted only by the wildcard; '
     'the address the request arrived at (scheme, Host, port) is not part of the configuration, so an Origin equal to it is allowed iff it is configured',
     'the request Origin is not the literal string "*" (echoing it would be indistinguishable from the wildcard; browsers never send it)',
     'the wildcard rule speaks about credentials granted by the middleware: a responder that itself pre-sets Access-Control-Allow-Credentials or -Origin is left alone (stated explicitly in DESIGN.md C20)',
@@ -171,6 +174,12 @@ RULE = ('(0) constructor: allow_origins / expose_headers / allow_credentials dra
         'a history of 0-5 add_route calls over three templates (re-registrations, suffix None / "" / alt / nosuch - rejected calls included -, resources with random on_<method>[_alt] sets incl. on_options, WebDAV and on_websocket, each responder setting '
         'a random subset of Allow / grant headers and returning or raising HTTPForbidden), 0-3 of two overlapping sinks and one static route in random order; 6 requests per app (72 % OPTIONS with Access-Control-Request-Method absent / empty / set, else GET / POST / DELETE / PROPFIND / HEAD / FOO / WEBSOCKET) '
         'to routed, sink, static and unrouted paths from granted / ungranted / absent origins; final status, the seven headers and the responder that ran are compared with Cd.exchange, and judged by an oracle that knows the implemented methods of the latest accepted registration. '
+        '(4) HISTORIES OF ONE MIDDLEWARE OBJECT (both stacks): a CORSMiddleware built as in (1) (or the object App(cors_enable=True) built) serves 4-10 requests - direct process_response(_async) calls on real Request / Response objects with random pre-set headers, '
+        'or requests through a real app (alone / behind another component / cors_enable) with a twin app lacking the policy; targets auto-OPTIONS route, own on_options with / without Allow, 405, unrouted. BETWEEN REQUESTS (probability 0 / 0.25 / 0.45 / 0.6 per history, repeated) '
+        'the application ASSIGNS allow_origins / allow_credentials ("*" or a frozenset of 0-3 origins; a wildcard is narrowed to a set in 85 % of its assignments, a set widened to "*" in 40 %) or expose_headers (None, "", a name, a joined list) on the live object; '
+        'each request is fed to Co.processF with the configuration CURRENT AT THAT REQUEST and judged by the statement against that configuration (counters hist_assign_<attribute>_<wildcard|set>_to_<wildcard|set>, hist_*_request_after_reassignment_across_the_wildcard_boundary). '
+        'THE ORIGIN FIELD IN SEVERAL FIELD LINES: 20 % of the requests with an Origin carry the field line 2-3 times (a not-granted origin then a granted one, the reverse, two granted ones, the same line twice), placed by the harness the way a server does - ASGI: one (b"origin", value) pair per line anywhere in scope["headers"]; '
+        'WSGI: one HTTP_ORIGIN joined with ", " or "," - not through falcon.testing; the oracle and the model get the combined field value computed by the harness from the lines (never req.get_header): not exactly one granted origin = no grant on either stack. '
         'non-trivial = request carries an Origin; distinct = distinct (level, stack, configuration, arrangement, request, plan)')
 PARTIAL = ('Modelled and proved: process_response (Co), CORSMiddleware.__init__ (Cg.normalise) and the cors_enable wiring of App.__init__ / add_middleware with the CORS component inside the C03 call '
            'discipline (Cg + Pl.run_eq_spec), and the producers of the Allow header composed with the policy (Cd.exchange: Dp dispatch over the registration history, generated OPTIONS responder, 405 / 400 / 404, '
@@ -428,7 +437,7 @@ def model_io(norm, origin, method, acrm, acrh, ok, pre, post):
 
 def run(ctx):
     import os
-    part = os.environ.get('VERIF_C20_PART', 'ctor,wire,unit,apps,disp')      # debugging knob: run only some of the levels
+    part = os.environ.get('VERIF_C20_PART', 'ctor,wire,unit,apps,disp,hist')      # debugging knob: run only some of the levels
     if 'ctor' in part:
         _ctor(ctx)
     if 'wire' in part:
@@ -443,6 +452,9 @@ def run(ctx):
     if 'disp' in part:
         _dispatch(ctx, asgi=False)
         _dispatch(ctx, asgi=True)
+    if 'hist' in part:
+        _hist(ctx, asgi=False)
+        _hist(ctx, asgi=True)
 
 
 # ------------------------------------------------------------------ (0) CORSMiddleware.__init__ = Cg.normalise
@@ -1637,7 +1649,8 @@ LEVEL_TEXT = ('Machine-checked proofs (Lean 4). (a) Cg.construct = Cg.bindArgs (
               'echoed origin and never with the wildcard; a preflight is approved iff allowed origin, successful OPTIONS, Access-Control-Request-Method and an advertised Allow, with exact methods/headers/max-age '
               'and Allow removed; a denied preflight leaves none of the six grant headers; other headers are never touched. The model is tied to falcon/middleware.py on every run by calling the real '
               'process_response / process_response_async on real Request/Response objects and inside real WSGI/ASGI apps (alone and among other middleware) and diffing the resulting header map with the '
-              'compiled model; an independent oracle compares every final response with a twin app lacking the middleware and applies the statement\'s rules.')
+              'compiled model; an independent oracle compares every final response with a twin app lacking the middleware and applies the statement\'s rules. Co.processF takes the configuration as an argument of every call, so its theorems hold '
+              'for every reconfiguration history of one object; the correspondence feeds it the configuration current at each request of histories in which the application re-assigns the public attributes between requests, and the Origin field value combined from all its field lines.')
 LEVEL_NOTE = ('Trusted: Lean kernel + standard axioms; the Response header map (C15); correspondence harness, twin-app oracle. The wildcard rule is about grants of the middleware (responder-preset '
               'Access-Control-Allow-Credentials is left alone); Origin "*" is excluded.')
 TECHNIQUE = 'Lean 4 proofs on models of CORSMiddleware.__init__, the cors_enable wiring and process_response (header map) + differential correspondence (unit calls and calls observed inside real WSGI/ASGI apps) + twin-app statement oracle'
@@ -1882,4 +1895,335 @@ def _dispatch(ctx, asgi):
         if loop is not None:
             loop.close()
         shutil.rmtree(root, ignore_errors=True)
+    sess.finish()
+
+
+# ------------------------------------------------------------------ (4) RECONFIGURATION HISTORIES of one long-lived middleware object, and the
+#                                                                        Origin field arriving in SEVERAL FIELD LINES
+
+def _run_wsgi(app, env):
+    """one prepared environ against a real WSGI app -> (status, {lower name: value}, body)"""
+    from runner import alarm
+    st = []
+    with alarm(30):
+        it = app(env, lambda s, h, e=None: st.append((s, h)))
+        try:
+            body = b''.join(it)
+        finally:
+            if hasattr(it, 'close'):
+                it.close()
+    hd = {}
+    for k, v in st[0][1]:
+        hd[k.lower()] = (hd[k.lower()] + ', ' + v) if k.lower() in hd else v
+    return int(st[0][0].split()[0]), hd, body
+
+
+def _run_asgi(loop, app, scope):
+    """one prepared scope against a real ASGI app -> (status, {lower name: value}, body)"""
+    import asyncio
+    events = [{'type': 'http.request', 'body': b'', 'more_body': False}, {'type': 'http.disconnect'}]
+    sent = []
+
+    async def go():
+        never = asyncio.get_running_loop().create_future()
+
+        async def receive():
+            if events:
+                return events.pop(0)
+            await never
+
+        async def send(e):
+            sent.append(e)
+        await app(scope, receive, send)
+    loop.run_until_complete(asyncio.wait_for(go(), 30))
+    start = next(e for e in sent if e['type'] == 'http.response.start')
+    hd = {}
+    for k, v in start['headers']:
+        k = k.decode('latin-1').lower()
+        v = v.decode('latin-1')
+        hd[k] = (hd[k] + ', ' + v) if k in hd else v
+    return start['status'], hd, b''.join(e.get('body', b'') for e in sent if e['type'] == 'http.response.body')
+
+
+def gen_origin_lines(rnd, ao):
+    """the Origin FIELD LINES of one request, in the order they are on the wire: none, one (82 %), two or three.  Several lines pair an origin the
+    current configuration grants with one it does not (either order), two granted ones, or the same line twice."""
+    o = gen_origin(rnd)
+    if o is None:
+        return []
+    if rnd.random() < 0.80 or o == '':
+        return [o]
+    members = sorted(ao) if ao != '*' else []
+    good = rnd.choice(members) if members else rnd.choice(UNIVERSE)
+    outside = [x for x in UNIVERSE + ['http://d', 'http://evil.example', 'null'] if x not in members] or ['http://evil.example']
+    r = rnd.random()
+    if r < 0.6:
+        lines = [rnd.choice(outside), good]           # (not granted, granted) - reversed half of the time below
+    elif r < 0.75:
+        lines = [good, rnd.choice(members) if members else good]
+    elif r < 0.85:
+        lines = [o, o]
+    else:
+        lines = [o, good]
+    if rnd.random() < 0.5:
+        lines.reverse()
+    if rnd.random() < 0.12:
+        lines.insert(rnd.randint(0, 2), rnd.choice(outside + [good]))
+    return lines
+
+
+def place_origin(rnd, asgi, env_or_scope, lines):
+    """Put the Origin field lines into a prepared environ / scope the way a server does - NOT through falcon.testing (whose own folding of
+    repeated headers reads a table of the tree under test).  ASGI: one (b'origin', value) pair per line, in wire order, anywhere between the
+    other headers.  WSGI: the server hands over ONE HTTP_ORIGIN, the line values joined with ', ' (or ',').  -> the field value (RFC 9110, 5.3:
+    the line values combined in order, comma-separated), None without any line."""
+    if not lines:
+        return None
+    if asgi:
+        hl = list(env_or_scope['headers'])
+        at = 0
+        for v in lines:
+            at = rnd.randint(at, len(hl))
+            hl.insert(at, (b'origin', v.encode('latin-1')))
+            at += 1
+        env_or_scope['headers'] = hl
+        return ','.join(lines)
+    field = rnd.choice([', ', ', ', ',']) if len(lines) > 1 else ''
+    field = field.join(lines)
+    env_or_scope['HTTP_ORIGIN'] = field
+    return field
+
+
+HIST_EXPOSE = [None, None, '', 'X-One', 'X-One, X-Two', 'X-Late']
+
+
+def gen_assignment(rnd, cur):
+    """one thing an application does to its live middleware between two requests: assign one of the three public attributes, in the normalised
+    form the constructor itself stores ('*' or a frozenset of origins; expose_headers: None or the joined string).  A wildcard setting is mostly
+    narrowed to a set, a set is often widened to the wildcard.  -> (attribute, python value, new normalised triple, kind)"""
+    ao, ac, ex = cur
+    attr = rnd.choice(['allow_origins', 'allow_origins', 'allow_origins', 'allow_credentials', 'allow_credentials', 'expose_headers'])
+    if attr == 'expose_headers':
+        new = rnd.choice([x for x in HIST_EXPOSE if x != ex] or [None])
+        return attr, new, (ao, ac, new), 'expose'
+    old = ao if attr == 'allow_origins' else ac
+    to_wild = rnd.random() < (0.15 if old == '*' else 0.4)
+    if to_wild:
+        new, val = '*', '*'
+    else:
+        new = set(rnd.sample(UNIVERSE, rnd.choice([0, 1, 1, 1, 2, 2, 3])))
+        val = frozenset(new)
+    kind = ('wildcard' if old == '*' else 'set') + '_to_' + ('wildcard' if new == '*' else 'set')
+    return attr, val, ((new, ac, ex) if attr == 'allow_origins' else (ao, new, ex)), kind
+
+
+def _cfg_json(cur):
+    ao, ac, ex = cur
+    return {'allow_origins': ao if ao == '*' else sorted(ao), 'allow_credentials': ac if ac == '*' else sorted(ac), 'expose_headers': ex}
+
+
+def _hist(ctx, asgi):
+    import asyncio
+    from runner import Hang
+    import falcon
+    import falcon.asgi
+    import falcon.testing as ft
+    rnd = ctx.rng
+    stack = 'asgi' if asgi else 'wsgi'
+    sess = ctx.session(f'{stack} histories of ONE CORSMiddleware object (requests with the Origin field in 0-3 field lines, between them the application assigns '
+                       f'allow_origins / allow_credentials / expose_headers): every process_response call = Co.processF with the configuration current at that request', 'crdriver')
+    loop = asyncio.new_event_loop() if asgi else None
+    REC = []
+    PLAN = {}
+
+    class RecCORS(falcon.CORSMiddleware):
+        """Unmodified policy; records what each call saw and left (the ASGI method delegates to this one)."""
+        def process_response(self, req, resp, resource, req_succeeded):
+            pre = snapshot(resp)
+            super().process_response(req, resp, resource, req_succeeded)
+            REC.append((pre, req_succeeded, snapshot(resp)))
+
+    def opt(resp):
+        for n, v in PLAN.get('preset', {}).items():
+            resp.set_header(n, v)
+        if PLAN.get('allow') is not None:
+            resp.set_header('Allow', PLAN['allow'])
+
+    if asgi:
+        class Res:
+            async def on_get(self, req, resp):
+                resp.text = 'r'
+
+        class ResOpt:
+            async def on_options(self, req, resp):
+                opt(resp)
+
+        class Other:
+            async def process_response(self, req, resp, resource, ok):
+                resp.set_header('X-Other', '1')
+        AppT = falcon.asgi.App
+    else:
+        class Res:
+            def on_get(self, req, resp):
+                resp.text = 'r'
+
+        class ResOpt:
+            def on_options(self, req, resp):
+                opt(resp)
+
+        class Other:
+            def process_response(self, req, resp, resource, ok):
+                resp.set_header('X-Other', '1')
+        AppT = falcon.App
+
+    def build(mws, **kw):
+        app = AppT(middleware=mws, **kw)
+        app.add_route('/r', Res())
+        app.add_route('/o', ResOpt())
+        return app
+
+    PRE_VALUES = {'acao': ['http://preset', '*'], 'acac': ['true'], 'acam': ['PRESET'], 'acah': ['X-PH'], 'acma': ['5'], 'aceh': ['X-P'], 'allow': ['GET, POST', 'GET', '']}
+    try:
+        for hi in range(ctx.n(1000, 7000)):
+            mode = rnd.choice(['direct', 'direct', 'direct', 'app', 'app', 'app+other', 'cors_enable'])
+            kw, cur, desc = gen_config(rnd)
+            app = twin = None
+            if mode == 'cors_enable':
+                cur, desc = ('*', set(), None), {'cors_enable': True}
+                app, twin = build(None, cors_enable=True), build(None)
+                # (the object the framework built for cors_enable=True; an application reaches it the same way)
+                mw = next(m for m in app._unprepared_middleware if isinstance(m, falcon.CORSMiddleware))
+            else:
+                mw, desc['constructed'] = call_documented(rnd, falcon.CORSMiddleware if mode == 'direct' else RecCORS, kw)
+                if mw is None:
+                    ctx.oracle('a documented constructor call with legal settings is accepted', False, desc['constructed'], {'level': 'history', 'stack': stack, 'config': desc})
+                    continue
+                if mode != 'direct':
+                    others = [Other()] if mode == 'app+other' else []
+                    app, twin = build(others + [mw]), build(list(others))
+            history = []
+            n_assign = crossed = 0
+            p_assign = rnd.choice([0.0, 0.25, 0.45, 0.6])
+            for ri in range(rnd.randint(4, 10)):
+                # ---- between two requests the application may re-configure the live object
+                while rnd.random() < p_assign:
+                    attr, val, cur, kind = gen_assignment(rnd, cur)
+                    setattr(mw, attr, val)
+                    history.append({'assign': attr, 'value': val if (val is None or isinstance(val, str)) else {'frozenset': sorted(val)}})
+                    n_assign += 1
+                    crossed += kind in ('wildcard_to_set', 'set_to_wildcard')
+                    ctx.count(f'hist_assign_{attr}_{kind}')
+                ao, ac, ex = cur
+                # ---- the request
+                lines = gen_origin_lines(rnd, ao)
+                addr, rel = gen_addr(rnd, lines[0] if lines else None)
+                acrm = rnd.choice([None, 'GET', 'GET', 'PUT', ''])
+                acrh = rnd.choice([None, None, 'X-H', 'X-H, Content-Type', ''])
+                hdrs = {}
+                if acrm is not None:
+                    hdrs['Access-Control-Request-Method'] = acrm
+                if acrh is not None:
+                    hdrs['Access-Control-Request-Headers'] = acrh
+                if mode == 'direct':
+                    method, path = rnd.choice(['GET', 'POST', 'OPTIONS', 'OPTIONS', 'OPTIONS', 'DELETE']), '/x'
+                else:
+                    method, path = rnd.choice([('GET', '/r'), ('GET', '/r'), ('OPTIONS', '/r'), ('OPTIONS', '/r'), ('OPTIONS', '/o'), ('OPTIONS', '/o'), ('POST', '/r'), ('GET', '/none'), ('OPTIONS', '/none')])
+                mk = (lambda: ft.create_scope(method=method, path=path, **addr_kwargs(addr, hdrs))) if asgi else (lambda: ft.create_environ(method=method, path=path, **addr_kwargs(addr, hdrs)))
+                state = rnd.getstate()
+                target = mk()
+                origin = place_origin(rnd, asgi, target, lines)
+                step = {'request': {'method': method, 'path': path, 'origin_field_lines': list(lines), 'headers': dict(hdrs), 'arrived_at': own_origin(addr)},
+                        'configuration_at_that_time': _cfg_json(cur)}
+                if not asgi and lines:
+                    step['request']['HTTP_ORIGIN'] = origin
+                history.append(step)
+                case = {'level': 'history', 'stack': stack, 'how': mode, 'constructed_with': desc, 'history': list(history)}
+                allowed = origin is not None and (ao == '*' or origin in ao)
+                cred_ok = allowed and (ac == '*' or origin in ac)
+                why = None
+                if mode == 'direct':
+                    ok = rnd.random() < 0.75
+                    if asgi:
+                        async def receive():
+                            return {'type': 'http.disconnect'}
+                        req, resp = falcon.asgi.Request(target, receive), falcon.asgi.Response()
+                    else:
+                        req, resp = falcon.Request(target), falcon.Response()
+                    for k, n in NAMED:
+                        if rnd.random() < (0.45 if k == 'allow' else 0.08):
+                            resp.set_header(randcase(rnd, n), rnd.choice(PRE_VALUES[k]))
+                    pre = snapshot(resp)
+                    if asgi:
+                        loop.run_until_complete(mw.process_response_async(req, resp, None, ok))
+                    else:
+                        mw.process_response(req, resp, None, ok)
+                    post = snapshot(resp)
+                    step['req_succeeded'] = ok
+                    step['response_headers_before'] = {**{n: pre[0][k] for k, n in NAMED if pre[0][k] is not None}, **pre[1]}
+                    step['response_headers_after'] = {**{n: post[0][k] for k, n in NAMED if post[0][k] is not None}, **post[1]}
+                    sess.case(case)
+                    sess.op(*model_io(cur, origin, method, acrm, acrh, ok, pre, post))
+                    if not allowed:
+                        if post != pre:
+                            why = f'response headers changed from {pre} to {post}'
+                    else:
+                        why = _grant_rules(origin, ao, cred_ok, ex, method, acrm, acrh, ok, pre[0], post[0])
+                        if why is None and post[1] != pre[1]:
+                            why = f'non-CORS headers changed: {pre[1]} -> {post[1]}'
+                else:
+                    PLAN.clear()
+                    PLAN.update({'allow': rnd.choice([None, 'GET, PUT', 'GET']), 'preset': rnd.choice([{}, {}, {}, {'Access-Control-Allow-Origin': 'http://preset'}, {'Access-Control-Allow-Methods': 'PRESET'}])})
+                    step['on_options_of_/o'] = dict(PLAN)
+                    try:
+                        t2 = mk()
+                        st2 = rnd.getstate()
+                        rnd.setstate(state)                    # the twin gets the very same request (same placement of the lines)
+                        place_origin(rnd, asgi, t2, lines)
+                        rnd.setstate(st2)
+                        del REC[:]
+                        T = _run_asgi(loop, twin, t2) if asgi else _run_wsgi(twin, t2)
+                        del REC[:]
+                        F = _run_asgi(loop, app, target) if asgi else _run_wsgi(app, target)
+                        rec = list(REC)
+                    except Hang:
+                        why = 'request did not return (hang)'
+                    except (asyncio.TimeoutError, TimeoutError):
+                        why = 'request did not return (timeout)'
+                    if why is None:
+                        step['response'] = {'status': F[0], 'headers': F[1]}
+                        step['response_without_cors_middleware'] = {'status': T[0], 'headers': T[1]}
+                        for pre, ok, post in rec:
+                            sess.case(case)
+                            sess.op(*model_io(cur, origin, method, acrm, acrh, ok, pre, post))
+                        if mode != 'cors_enable' and len(rec) != 1:
+                            why = f'the policy ran {len(rec)} times in one exchange'
+                        elif not allowed:
+                            if F != T:
+                                why = 'the response differs from the one of the same app without the CORS middleware: ' + \
+                                      str({k: (T[1].get(k), F[1].get(k)) for k in set(T[1]) | set(F[1]) if T[1].get(k) != F[1].get(k)} or {'status/body': (T[0], F[0])})
+                        else:
+                            names = {n.lower() for _, n in NAMED} | {'vary'}
+                            if F[0] != T[0] or F[2] != T[2] or {k: v for k, v in F[1].items() if k not in names} != {k: v for k, v in T[1].items() if k not in names}:
+                                why = 'status, body or non-CORS headers differ from the same app without the CORS middleware'
+                            else:
+                                pre = {k: T[1].get(n.lower()) for k, n in NAMED}
+                                post = {k: F[1].get(n.lower()) for k, n in NAMED}
+                                why = _grant_rules(origin, ao, cred_ok, ex, method, acrm, acrh, T[0] < 400, pre, post)
+                if why is not None:
+                    what = ('no Origin field' if origin is None else
+                            f'Origin field {origin!r} ({len(lines)} field lines {lines})' if len(lines) > 1 else f'Origin {origin!r}')
+                    why = (f'request {sum(1 for h in history if "request" in h)} of the history, after {n_assign} assignment(s); configuration at that time {_cfg_json(cur)}; {what} is '
+                           + ('granted' if allowed else 'not granted') + ' by it: ' + why)
+                ctx.oracle('history of one middleware object: every request is answered by the configuration current AT THAT REQUEST (constructor arguments, then whatever the application assigned to allow_origins / '
+                           'allow_credentials / expose_headers since); a request whose Origin field (all its field lines combined) is not exactly one granted origin gets no grant; grants, credentials, wildcard and '
+                           'preflight rules of the statement otherwise', why is None, why, case)
+                ctx.seen(('hist', stack, mode, cfg_words(cur), n_assign, method, path, tuple(lines), origin, acrm, acrh, own_origin(addr)), bool(lines))
+                ctx.count(f'hist_{stack}_{mode}_request_' + ('under_the_constructor_configuration' if not n_assign else
+                                                               'after_reassignment_across_the_wildcard_boundary' if crossed else 'after_reassignment_not_crossing_the_wildcard_boundary'))
+                ctx.count(f'hist_{stack}_origin_field_lines_{min(len(lines), 3)}_' + ('granted' if allowed else 'no_grant'))
+                if len(lines) > 1 and ao != '*':
+                    ctx.count(f'hist_{stack}_several_origin_lines_' + ('last_line_is_a_granted_origin' if lines[-1] in ao else 'first_line_is_a_granted_origin' if lines[0] in ao else 'no_end_line_granted'))
+    finally:
+        if loop is not None:
+            loop.close()
     sess.finish()
